@@ -241,3 +241,12 @@ theorem retain_is (p : Pred) (fuel : Nat) (s : St) :
   unfold GenRepr.LeanString.retain; exact call_unwrap _ s
 
 end LS.GenTie
+
+namespace LS.GenTie
+/-- `from_utf8_unchecked(buf)` is `LeanString::from` of the same bytes -/
+theorem from_utf8_unchecked_is (b : Bytes) (s : St) :
+    GenRepr.LeanString.from_utf8_unchecked ⟨b⟩ s = norm (GenRepr.LeanString.from_str_ref ⟨b⟩ s) := by
+  unfold GenRepr.LeanString.from_utf8_unchecked
+  simp only [bind_ap, str.from_utf8_unchecked, HasBytes.bytes, pure_ap, call_norm]
+  cases GenRepr.LeanString.from_str_ref ⟨b⟩ s <;> rfl
+end LS.GenTie
